@@ -330,30 +330,34 @@ def sphere_rule(n, revolution):
 
 def sphere_average(sh, q, p, ladder, rtol=None):
     """
-    Returns (avg[nq], converged[nq] bool, order[nq]) : ladder of composite rules, a q is converged when two
-    successive orders agree to rtol[k] (default REF_TOL; the finer value is returned).
+    Returns (avg[nq], converged[nq] bool, order[nq]) : ladder of composite rules.  A q is converged when successive
+    orders agree to rtol[k] (default REF_TOL; the finest value is returned): ONE agreement (two rungs) for the strict
+    tolerance 1e-7, TWO agreements in a row (three rungs) for any looser tolerance, because two under-resolved orders
+    of a rapidly oscillating integrand can agree to 1e-3 by accident (triaxial_ellipsoid radii (20, 0.1, 10) at
+    q = 29.1: orders 24 and 48 agree to 2.8e-4 and are both 13 % off; a false alarm at seed 6 before this rule).
     """
     q = np.asarray(q, float)
     rtol = np.full(len(q), REF_TOL) if rtol is None else np.asarray(rtol, float)
+    need = np.where(rtol <= REF_TOL, 1, 2)
     revolution = sh.mode == 2
     avg = np.full(len(q), np.nan)
     conv = np.zeros(len(q), bool)
     order = np.zeros(len(q), int)
+    streak = np.zeros(len(q), int)
     todo = np.arange(len(q))
     prev = None
     for n in ladder:
         dirs, w = sphere_rule(n, revolution)
         val, _ = sh.avg(q[todo], p, dirs, w)
+        avg[todo] = val
+        order[todo] = n
         if prev is not None:
             with np.errstate(all="ignore"):
-                ok = np.abs(val - prev) <= rtol[todo] * np.abs(val)
-            ok &= np.isfinite(val)
-            avg[todo[ok]] = val[ok]
-            conv[todo[ok]] = True
-            order[todo[ok]] = n
-            avg[todo[~ok]] = val[~ok]
-            order[todo[~ok]] = n
-            todo, val = todo[~ok], val[~ok]
+                agree = (np.abs(val - prev) <= rtol[todo] * np.abs(val)) & np.isfinite(val)
+            streak[todo] = np.where(agree, streak[todo] + 1, 0)
+            done = streak[todo] >= need[todo]
+            conv[todo[done]] = True
+            todo, val = todo[~done], val[~done]
         prev = val
         if len(todo) == 0:
             break
